@@ -281,6 +281,7 @@ func (j *job[T]) Close() error {
 	if err := j.markClosed(); err != nil {
 		return err
 	}
+	vhook("jclose.marked", j)
 
 	j.wg.Done()
 
